@@ -254,7 +254,7 @@ PROPS = {
     "C14": dict(
         level="other",
         bounded=_mod("c14"),
-        lemmas=["mem.snoc.Str"],
+        lemmas=["mem.snoc.Str", "XI", "CoveredUpTo.snoc"],
         trusted=TB + ["TB-z3", "TB-time (every clock observation nondeterministic)"],
         assumed=[],
         explanation="Engine P proves, with every clock observation and every Optimize.check() under a timeout nondeterministic, that "
